@@ -3,6 +3,7 @@ package props
 import (
 	"fmt"
 	"testing"
+	"time"
 
 	"verifh/refmqtt"
 
@@ -186,6 +187,55 @@ func (h *H) faultActions(rt *rapid.T, fc *faultCounters) map[string]func(*rapid.
 			if h.IsDone(call) && call.Err == nil {
 				h.accepted[level] = append(h.accepted[level], call)
 			}
+		},
+		// The connection is lost and the read routine reconnects while a
+		// publisher sits in a slow Save (it holds its level's sequence lock,
+		// which connect needs before the resend); a publisher of the other
+		// level arrives meanwhile. Whatever order the locks are taken in:
+		// what was accepted goes out on the new connection.
+		"slowSaveAcrossReconnect": func(rt *rapid.T) {
+			c := h.Current()
+			if c == nil || !c.Accepted() || h.Store.Parked() > 0 || c.WritersParked() > 0 || len(h.ParkedGates()) != 0 {
+				rt.Skip("no accepted connection at rest")
+			}
+			level := byte(rapid.IntRange(1, 2).Draw(rt, "level"))
+			h.Store.ParkNext('S')
+			h.Act("slowSaveAcrossReconnect: the next Save parks")
+			call := h.pub(level, false)
+			if h.Store.Parked() == 0 {
+				h.Store.ClearParks()
+				return // refused before it got to the Persistence
+			}
+			h.Act("break conn=%d; the read routine reconnects as far as it gets", c.N)
+			c.Break(false)
+			for i := 0; i < 3; i++ {
+				h.App.Step()
+				h.PollQuiet(2*time.Millisecond, func() bool { return false })
+			}
+			other := h.pub(3-level, false)
+			h.PollQuiet(2*time.Millisecond, func() bool { return false })
+			h.Act("slowSaveAcrossReconnect: released")
+			h.Store.Release()
+			h.Store.ClearParks()
+			h.SettleCall(call)
+			h.SettleCall(other)
+			h.PollExchanges()
+			for _, x := range []struct {
+				c *sim.Call
+				l byte
+			}{{call, level}, {other, 3 - level}} {
+				known := false
+				for _, c := range h.accepted[x.l] {
+					if c == x.c {
+						known = true
+					}
+				}
+				if !known && h.IsDone(x.c) && x.c.Err == nil {
+					h.accepted[x.l] = append(h.accepted[x.l], x.c)
+				}
+			}
+			fc.connLoss++
+			h.label("reconnect-while-a-publisher-holds-a-sequence-lock")
 		},
 		// A publish without payload is two buffers of which the second is
 		// empty; the connection fails, parks or is closed right after the
